@@ -52,6 +52,10 @@ type report struct {
 	WorkSites       int               `json:"work_clock_sites"`
 	TimeRewrites    []string          `json:"wall_clock_reads_redirected"`
 	TimeUnmodelled  []string          `json:"wall_clock_uses_not_modelled"`
+	Spawns          []string          `json:"goroutines_and_timers_of_the_library_scheduled"`
+	AtomicPoints    int               `json:"atomic_operations_with_scheduling_point"`
+	CtxDerived      []string          `json:"context_derivations_in_library_not_modelled"`
+	LibrarySpawns   bool              `json:"library_starts_goroutines_or_timers"`
 }
 
 func die(format string, a ...interface{}) {
@@ -190,6 +194,14 @@ func main() {
 		overlay[filepath.Join(absRepo, "verifsim", e.Name())] = dst
 	}
 
+	if len(rep.Spawns) > 0 {
+		// the library starts goroutines or timers of its own: the workers run
+		// every case (not only C11's) under the scheduler
+		rep.LibrarySpawns = true
+		dst := filepath.Join(srcOut, "verifsim", "zz_spawns.go")
+		writeFile(dst, []byte("//go:build go1.21\n\npackage verifsim\n\nfunc init() { LibrarySpawns = true }\n"))
+		overlay[filepath.Join(absRepo, "verifsim", "zz_spawns.go")] = dst
+	}
 	if *pool {
 		patchPool(srcOut, overlay, rep)
 	}
@@ -421,6 +433,47 @@ func (r *rewriter) run() bool {
 	}
 	post := func(c *astutil.Cursor) bool {
 		switch n := c.Node().(type) {
+		case *ast.GoStmt:
+			if r.driver {
+				return true
+			}
+			// go f(a, b)  ->  { verifF := f; verifA0 := a; verifA1 := b; verifsim.Go(func() { verifF(verifA0, verifA1) }) }
+			// (function value and arguments are evaluated now, as the go statement does)
+			r.n++
+			site := r.site(n.Pos(), curFn)
+			var pre []ast.Stmt
+			call := n.Call
+			if lit, ok := call.Fun.(*ast.FuncLit); ok && len(call.Args) == 0 {
+				c.Replace(&ast.ExprStmt{X: &ast.CallExpr{Fun: simSel("Go"), Args: []ast.Expr{lit}}})
+			} else {
+				fun := call.Fun
+				if id, isID := fun.(*ast.Ident); !isID || info.Uses[id] == nil || info.Uses[id].Pkg() != nil {
+					fv := ast.NewIdent(fmt.Sprintf("verifF%d", r.n))
+					pre = append(pre, &ast.AssignStmt{Lhs: []ast.Expr{fv}, Tok: token.DEFINE, Rhs: []ast.Expr{fun}})
+					fun = fv
+				}
+				var args []ast.Expr
+				for i, a := range call.Args {
+					av := ast.NewIdent(fmt.Sprintf("verifA%d_%d", r.n, i))
+					pre = append(pre, &ast.AssignStmt{Lhs: []ast.Expr{av}, Tok: token.DEFINE, Rhs: []ast.Expr{a}})
+					args = append(args, av)
+				}
+				inner := &ast.CallExpr{Fun: fun, Args: args, Ellipsis: call.Ellipsis}
+				if call.Ellipsis != token.NoPos {
+					inner.Ellipsis = 1
+				}
+				body := &ast.FuncLit{Type: &ast.FuncType{Params: &ast.FieldList{}}, Body: &ast.BlockStmt{List: []ast.Stmt{&ast.ExprStmt{X: inner}}}}
+				pre = append(pre, &ast.ExprStmt{X: &ast.CallExpr{Fun: simSel("Go"), Args: []ast.Expr{body}}})
+				c.Replace(&ast.BlockStmt{List: pre})
+			}
+			r.rep.Spawns = append(r.rep.Spawns, site+" go")
+			r.needSim, changed = true, true
+		case *ast.SelectorExpr:
+			// the type time.Timer
+			if !r.driver && n.Sel.Name == "Timer" && r.isPkg(n.X, "time") {
+				c.Replace(simSel("Timer"))
+				r.needSim, changed = true, true
+			}
 		case *ast.SendStmt:
 			if r.driver || inComm[n] {
 				return true
@@ -578,8 +631,55 @@ func (r *rewriter) run() bool {
 					r.rep.TimeRewrites = append(r.rep.TimeRewrites, r.site(n.Pos(), curFn)+" "+sel.Sel.Name)
 					n.Fun = simSel(sel.Sel.Name)
 					r.needSim, changed = true, true
-				case "After", "AfterFunc", "NewTimer", "NewTicker", "Tick":
+				case "After", "AfterFunc", "NewTimer":
+					r.rep.Spawns = append(r.rep.Spawns, r.site(n.Pos(), curFn)+" time."+sel.Sel.Name)
+					n.Fun = simSel(sel.Sel.Name)
+					r.needSim, changed = true, true
+				case "NewTicker", "Tick":
 					r.rep.TimeUnmodelled = append(r.rep.TimeUnmodelled, r.site(n.Pos(), curFn)+" "+sel.Sel.Name)
+				}
+			}
+			if !r.driver && r.isPkg(sel.X, "context") {
+				switch sel.Sel.Name {
+				case "WithTimeout", "WithDeadline", "WithCancel", "AfterFunc", "WithTimeoutCause", "WithDeadlineCause", "WithCancelCause":
+					r.rep.CtxDerived = append(r.rep.CtxDerived, r.site(n.Pos(), curFn)+" context."+sel.Sel.Name)
+				}
+			}
+			// sync/atomic: a scheduling point after every operation (not
+			// where the call is the operand of go/defer: its arguments are
+			// evaluated at another time than the call)
+			if !r.driver {
+				isAtomic := r.isPkg(sel.X, "sync/atomic")
+				if !isAtomic {
+					if sl, ok := info.Selections[sel]; ok && sl.Kind() == types.MethodVal {
+						rt := sl.Recv()
+						if pt, ok := rt.(*types.Pointer); ok {
+							rt = pt.Elem()
+						}
+						if nt, ok := rt.(*types.Named); ok && nt.Obj().Pkg() != nil && nt.Obj().Pkg().Path() == "sync/atomic" {
+							isAtomic = true
+						}
+					}
+				}
+				if isAtomic {
+					switch par := c.Parent().(type) {
+					case *ast.DeferStmt, *ast.GoStmt:
+					case *ast.ExprStmt:
+						_ = par
+						c.Replace(&ast.CallExpr{Fun: simSel("AtomicPointCall"), Args: []ast.Expr{&ast.FuncLit{Type: &ast.FuncType{Params: &ast.FieldList{}}, Body: &ast.BlockStmt{List: []ast.Stmt{&ast.ExprStmt{X: n}}}}}})
+						r.rep.AtomicPoints++
+						r.needSim, changed = true, true
+						return true
+					default:
+						if tv, ok := info.Types[n]; ok && tv.Type != nil {
+							if tup, isTup := tv.Type.(*types.Tuple); !isTup || tup.Len() == 1 {
+								c.Replace(&ast.CallExpr{Fun: simSel("AtomicPoint"), Args: []ast.Expr{n}})
+								r.rep.AtomicPoints++
+								r.needSim, changed = true, true
+								return true
+							}
+						}
+					}
 				}
 			}
 			// fmt.Print* -> verifsim.Print* (library only)
